@@ -317,6 +317,57 @@ theorem frame_done_entries (E : Env) (checkN : Nat) :
                 exact ⟨fun b hb => (by cases hb), h1, h2, (by simpa using h3), fun hf => absurd hf h4⟩
       · simp [h1] at h
 
+theorem procList_err_inv (kind : Bytes → Kind) (mk : Bytes → Meta) :
+    ∀ (ds : List Bytes) (e : End) (st : St) (x : Err), procList kind mk st ds e = .err x → x = .badJSON ∨ e = .err x := by
+  intro ds
+  induction ds with
+  | nil =>
+    intro e st x h
+    cases e with
+    | done => cases h
+    | err y => injection h with h; right; rw [h]
+  | cons d ds ih =>
+    intro e st x h
+    simp only [procList] at h
+    cases hk : kind d with
+    | invalid => rw [hk] at h; injection h with h; left; exact h.symm
+    | nonObject => rw [hk] at h; exact ih e st x h
+    | object => rw [hk] at h; exact ih e _ x h
+
+/-- the line-level description never mentions the fuel artefact -/
+theorem frame_no_fuel (E : Env) (checkN : Nat) (tail : Bytes) :
+    ∀ (ls : List Bytes) (p : Pos) (n : Nat), (frame E checkN tail p n ls).2 ≠ .err .fuel := by
+  intro ls
+  induction ls with
+  | nil =>
+    intro p n
+    cases p
+    · simp only [frame]
+      unfold tailAct endNext
+      by_cases h1 : tail = [] <;> by_cases h2 : fitsTail E tail = true <;>
+        by_cases h3 : unknownAction checkN n tail = true <;> cases hc : E.clean <;> simp [h1, h2, h3]
+    · simp only [frame]
+      unfold tailDoc endNext endOf
+      by_cases h1 : tail = [] <;> by_cases h2 : fitsTail E tail = true <;>
+        by_cases h3 : tailSkipOk E tail = true <;> cases hc : E.clean <;> simp [h1, h2, h3]
+  | cons c ls ih =>
+    intro p n
+    cases p
+    · simp only [frame]
+      split
+      · simp
+      · split
+        · exact ih .action n
+        · split
+          · simp
+          · exact ih .doc n
+    · simp only [frame]
+      split
+      · exact ih .action (n + 1)
+      · split
+        · simp
+        · exact ih .action (n + 1)
+
 theorem procList_ok_inv (kind : Bytes → Kind) (mk : Bytes → Meta) (ds : List Bytes) (e : End) (st st' : St)
     (h : procList kind mk st ds e = .ok st') : e = .done ∧ ∀ d, d ∈ ds → kind d ≠ .invalid := by
   constructor
@@ -328,5 +379,19 @@ theorem procList_ok_inv (kind : Bytes → Kind) (mk : Bytes → Meta) (ds : List
   · intro d hd hk
     obtain ⟨e', he'⟩ := procList_invalid kind mk ds st e ⟨d, hd, hk⟩
     rw [he'] at h; cases h
+
+/-- shape of the answer of an accepted request that must store `S` -/
+def acceptedWith (mk : Bytes → Meta) (S : List Bytes) : Result :=
+  ⟨.ok S.length, if S = [] then none else some (S.length, encodeDocs S, S.map mk)⟩
+
+theorem finish_done (kind : Bytes → Kind) (mk : Bytes → Meta) (ds : List Bytes)
+    (h : ∀ d, d ∈ ds → kind d ≠ .invalid) :
+    finish true (procList kind mk St.init ds .done) = acceptedWith mk (objects kind ds) := by
+  rw [procList_done kind mk ds St.init h, foldl_push]
+  simp only [finish, St.init, acceptedWith, encodeDocs_eq, List.nil_append, Nat.zero_add]
+  cases hS : objects kind ds with
+  | nil => simp
+  | cons d S => simp
+
 
 end SV.Bulk
